@@ -738,3 +738,30 @@ pub fn vset_log_and_apply_edit(options: DbOptions, new_manifest: bool, number: u
     let installed = describe_files(&g.version_set).iter().any(|d| d.starts_with(&format!("1:{}:", number)));
     (ok, installed)
 }
+
+impl VecIter {
+    /// Entries with arbitrary user keys: (user key, sequence, is_put, one value byte).
+    pub fn new_full(entries: &[(Vec<u8>, u64, bool, u8)]) -> Self {
+        let v: Vec<(InternalKey, Vec<u8>)> = entries
+            .iter()
+            .map(|e| (InternalKey::new(e.0.clone(), e.1, op(e.2)), vec![e.3]))
+            .collect();
+        let pos = v.len();
+        VecIter { entries: v, pos }
+    }
+}
+
+impl VMerge {
+    pub fn seek_key(&mut self, k: &[u8], s: u64) {
+        let _ = self.0.seek(&InternalKey::new_for_seeking(k.to_vec(), s));
+    }
+    pub fn valid(&self) -> bool {
+        self.0.is_valid()
+    }
+    pub fn current_full(&self) -> Option<(Vec<u8>, u64, u8)> {
+        if !self.0.is_valid() {
+            return None;
+        }
+        self.0.current().map(|(k, v)| (k.get_user_key().to_vec(), k.get_sequence_number(), v[0]))
+    }
+}
